@@ -641,15 +641,18 @@ func (ob *SuObject) Hash() uint64 {
 		}
 	}
 	if 0 < ob.named.Size() && ob.named.Size() <= 4 {
+		// combine the members commutatively:
+		// equal objects can hold their named members in different orders
+		sum := uint64(0)
 		iter := ob.named.Iter()
 		for {
 			k, v, ok := iter()
 			if !ok {
 				break
 			}
-			hash = 31*hash + k.Hash2()
-			hash = 31*hash + v.Hash2()
+			sum += 31*k.Hash2() + v.Hash2()
 		}
+		hash = 31*hash + sum
 	}
 	return hash
 }
